@@ -1,20 +1,23 @@
 #!/bin/bash
-# Runs every stored seeded change against a scratch copy of /repo and reports whether the check of its own property fires (self-test).
+# Runs every stored seeded change against a scratch copy of /repo and reports whether the check of its own property fires (self-test). Eight at a time.
 export GOFLAGS=-mod=mod GOPROXY=off GOSUMDB=off GOTOOLCHAIN=local
 V=$(cd "$(dirname "$0")/.." && pwd)
-for d in "$V"/seeded/C*; do
+one() {
+  d=$1; V=$2
   slot=$(basename $d); id=${slot:0:3}
   D=$(mktemp -d /tmp/vseed.XXXXXX)
   rsync -a --exclude .git /repo/ "$D/"
   if ! (cd "$D" && git init -q . && git apply "$d/patch.diff" 2>/dev/null); then
-    if [ "$id" = C06 ]; then
+    if [ "$id" = C06 ] && [ "$slot" = C06 ]; then
       printf 'package goast\n\nimport "go/token"\n\n// IsReservedKeyword returns true if the given word is a reserved keyword.\nfunc IsReservedKeyword(n string) bool {\n\treturn token.IsKeyword(n)\n}\n' > "$D/internal/goast/reserved.go"
     else
-      echo "$id PATCH-DOES-NOT-APPLY"; rm -rf "$D"; continue
+      echo "$slot PATCH-DOES-NOT-APPLY"; rm -rf "$D"; return
     fi
   fi
   mkdir -p "$D/.verif"; cp "$V/known_findings.txt" "$D/.verif/"; cp -r "$V/testdata" "$D/.verif/"
   "${VCHECK:-$V/bin/vcheck}" -p $id -repo "$D" -verif "$D/.verif" > "$D/.out" 2>&1; r=$?
   echo "$slot exit=$r $(grep -cE '^  (VIOLATED|UNDECIDED)' "$D/.out") alarms: $(grep -E '^  (VIOLATED|UNDECIDED)' "$D/.out" | awk '{print $2":"$3}' | sort -u | head -4 | tr '\n' ' ')"
   rm -rf "$D"
-done
+}
+export -f one
+ls -d "$V"/seeded/C* | xargs -P 8 -I{} bash -c 'one {} '"$V" | sort
